@@ -44,9 +44,12 @@ func main() {
 		"distinct by run index (each run has its own seed-derived configuration and schedule); a third of the concurrent runs has two rollup " +
 		"target intervals with real rollup jobs running, one interval held back (target store absent / rollup merge failing) until half of the flushes are committed; " +
 		"directed partial-rollup runs (8 shapes = configuration order x which interval completes first x cause, seeded sizes/triggers/reopen/reader) are " +
-		"non-trivial when a table was rolled up for a strict subset of the intervals, a compaction took it out of the version and clean-ups ran afterwards")
+		"non-trivial when a table was rolled up for a strict subset of the intervals, a compaction took it out of the version and clean-ups ran afterwards; " +
+		"directed open-failure runs (faults.go: lookup kind x kind of holder by run index; seeded number of tables, failing position, held tables, holders, failed lookups, errno, TTL) are " +
+		"non-trivial when a lookup was failed by the injected mapping failure and readers of other open snapshots were held over a cache clean-up afterwards")
 	c.Assume("a rollup of (table, interval) counts as completed only when the target family of that interval shows every token flushed into the table; " +
 		"the target family installs its output before the source family deletes the mark, so the ledger never calls a table pending that lindb may delete")
+	c.Assume("a table open fails only through the kv/table map seam (mmap error: ENOMEM/EMFILE/EAGAIN), once per armed lookup, and only inside reader lookups (FindReaders/Load/GetReader), never inside flush/compaction")
 	c.Assume("schedules are sampled, not enumerated; goroutine interleavings differ from run to run")
 	c.Assume("a table may be unmapped by the reader cache while a snapshot merely names it (it is re-mapped on the next read); only an unmap while a reader obtained from a still-open snapshot is outstanding, or a delete of a file named by an open snapshot / pending rollup, is a violation")
 	nRuns := c.Pick(24, 400)
@@ -58,11 +61,15 @@ func main() {
 	nRuns += c.Pick(6, 60) // directed schedules (release parked before the removal from the active versions)
 	nDirected := nRuns
 	nRuns += c.Pick(16, 160) // directed partial-rollup schedules (rollup.go): 8 shapes (order x which interval completes x cause) each
+	nRollup := nRuns
+	nRuns += c.Pick(12, 120) // directed open-failure schedules (faults.go): 4 lookup slots x 3 kinds of holders per pass
 	results = make([]*runResult, nRuns)
 	raceOut = make([]string, nRuns)
 	core.Parallel(nRuns, 6, func(i int) {
 		runIdx := i
-		if i >= nDirected {
+		if i >= nRollup {
+			runIdx = faultBase + (i - nRollup)
+		} else if i >= nDirected {
 			runIdx = rollupBase + (i - nDirected)
 		} else if i >= nStress {
 			runIdx = directedBase + (i - nStress)
@@ -147,6 +154,19 @@ func main() {
 	} {
 		if c.Counter(need) == 0 {
 			c.Inconclusive("partial-rollup schedules: %s was never observed", need)
+		}
+	}
+	// the open-failure schedules must have been reached: a lookup failed by the injected failure after it had passed a
+	// table whose reader another open snapshot kept over the cache clean-ups, for every kind of lookup
+	for _, need := range []string{
+		"fault.lookups_failed.find-readers",
+		"fault.lookups_failed.load",
+		"fault.lookups_failed.get-reader",
+		"fault.failed_lookups_that_had_passed_a_table_another_snapshot_holds",
+		"fault.cleanup_rounds_with_readers_held_after_a_failed_lookup",
+	} {
+		if c.Counter(need) == 0 {
+			c.Inconclusive("open-failure schedules: %s was never observed", need)
 		}
 	}
 	if raceBin == "" {
